@@ -65,6 +65,16 @@ CLAIMS["C20"] = dict(
     note="Hashing (xxhash) and filter sizing are library/float code and not encoded.",
 )
 
+CLAIMS["C28"] = dict(
+    engine="kani-transplant",
+    technique="bounded symbolic execution of the FastLanes pack/unpack kernels (macro-generated, one (type,width) pair per query) with Kani+CBMC on 1024 fully symbolic lanes",
+    text=("Decides, per (integer type, bit width) pair present in the source, that unpack_T_W(pack_T_W(x))[i] == x[i] & mask(W) for every one of the "
+          "2^(1024*T) inputs (all lanes symbolic, symbolic probe index, packed buffer pre-filled with arbitrary data), and that the public dispatcher "
+          "maps each width to that kernel with 1024*W/T words. This is a complete verdict per kernel pair -- the input size is fixed at 1024 by the "
+          "format. FSST is not encoded (pointer/table code over 64K-entry tables; see not-applicable note in DESIGN.md)."),
+    note="Quick tier: 5 representative pairs; thorough: all 120 pairs with W>=1. FSST compress/decompress is outside the claim.",
+)
+
 _IO = "truth lives in async object-store/tokio orchestration (crash points, interleavings, listings); Kani/CBMC has no model of tokio or object_store and no pure kernel implies the statement"
 NOT_APPLICABLE.update({
     "C01": "commit atomicity over crash points: " + _IO,
@@ -93,5 +103,5 @@ NOT_APPLICABLE.update({
     "C42": "relocatability is a statement about every path written by every writer being relative; decided by I/O",
 })
 _PLANNED = "planned in DESIGN.md §5 but its check is not built yet, so it is not claimed"
-for _p in ["C09", "C17", "C19", "C26", "C27", "C28", "C29", "C30", "C32", "C33", "C34", "C35", "C36", "C41", "C43"]:
+for _p in ["C09", "C17", "C19", "C26", "C27", "C29", "C30", "C32", "C33", "C34", "C35", "C36", "C41", "C43"]:
     NOT_APPLICABLE.setdefault(_p, _PLANNED)
